@@ -20,8 +20,17 @@ NOTES = """Interpretation choices (read generously, see BUILDING.md rule 1):
   presented or counted.
 * Text() and ToMarkdown() do not delimit pages: only the order of the content tokens and 'each exactly once'
   are asserted there; Document().Pages[i] and the format readers are asserted page by page.
-* EPUB hrefs are URLs relative to the package document: %20 is a space, %2B and a literal '+' are a plus
-  (RFC 3986 path rules; '+' means space only in application/x-www-form-urlencoded query strings).
+* part NAMES are a dimension: member names with a space, '+', the text "%20" (a percent sign followed by hex
+  digits), a lone '%', e-acute, parentheses and '&' (XML-escaped in the attribute).
+  EPUB (OCF / URL standard): the manifest href is a URL path relative to the package document and is percent-decoded
+  exactly ONCE: %20 is a space, %2B and a literal '+' are a plus ('+' means space only in form-encoded query strings),
+  %2520 denotes the name "%20", %25z the name "%z", %C3%A9 and the raw character (IRI spelling) denote e-acute.
+  OOXML (ECMA-376 Part 2): part names ARE the percent-encoded form and the ZIP item name is the part name, so the
+  Target text is the member name text and nothing is decoded ("sheet%201.xml" is a member literally called that);
+  raw spaces / raw non-ASCII in Targets are legal IRIs but are NOT generated (conversion rules are intricate).
+  Per declared part an undeclared decoy may carry the name a WRONG reading denotes (decoded once more, not decoded
+  at all, '+' as space); it must never be shown.
+* references may contain "./" (and for EPUB "../") segments: resolved as RFC 3986 5.2.4 says, relative and absolute.
 * OPC relationship targets are tried relative to the source part ('worksheets/sheet1.xml') and absolute
   ('/xl/worksheets/sheet1.xml'); '..' segments are generated only for EPUB. Speaker notes, slide masters and
   layouts carry no tokens; nothing is asserted about them.
@@ -30,11 +39,13 @@ NOTES = """Interpretation choices (read generously, see BUILDING.md rule 1):
 EVIDENCE = dict(
     level="model_checking",
     rule="cases = every package PartsOrderMC.tla builds from K parts (K=3 quick, 4 thorough) x three independent permutations "
-         "(declared order, relationship/manifest listing order, archive order; file-name order = part number) x 28 layout profiles "
+         "(declared order, relationship/manifest listing order, archive order; file-name order = part number) x 59 layout profiles "
          "(XLSX, PPTX, EPUB 2/3; nested / renamed / ../ paths; absolute targets; %20, '+', %2B; decoys; optional parts; one declared part "
-         "absent from the archive, with other parts or decoys under the conventional sheet<k>/slide<k> names) plus -simulate "
+         "absent from the archive, with other parts or decoys under the conventional sheet<k>/slide<k> names; member names with space, '+', "
+         "'%20', lone '%', e-acute, parentheses, '&' in their encoded / raw spellings with decoys named like the doubly decoded, undecoded "
+         "or form-decoded reading; './' segments) plus -simulate "
          "packages over the full option product; TLC proves DeclaredOrder for the declared/path reader and refutes the file-name, archive, "
-         "query-decoding and conventional-name-fallback readers. Each package is rendered by an independent writer and opened through tabula.Open (PageCount, Text, "
+         "query-decoding, twice-decoding and conventional-name-fallback readers. Each package is rendered by an independent writer and opened through tabula.Open (PageCount, Text, "
          "ToMarkdown, Document) and the format reader; random packages of up to 10 parts are validated by PartsOrderTrace.tla. "
          "Non-trivial = declared order differs from file-name order; distinct by case text.",
     assumptions=["a reader that refuses a package with an absent declared part is not judged (only silent substitution / miscounting is)",
@@ -86,6 +97,50 @@ def _name_orders(results):
     return results
 
 
+def _features(text):
+    m = vlib.re.search(r"\{([^}]*)\}", text or "")
+    return [x for x in m.group(1).split(",")] if m else []
+
+
+def _name_features(results):
+    """Open errors / missing parts carry all layout options of the case ("{enc=paren,paths=dot,tgt=rel,opf=root}").
+    The signature names the option value(s) that explain the failure: a value all of whose cases (of that format)
+    fail in this run; pairs of values are tried when no single value does. Priority paths > tgt > opf > enc for ties,
+    'plain' for the default value of an option."""
+    import itertools
+    tot, bad = {}, {}
+    for r in results:
+        if r["ok"]:
+            fm, feats = (r.get("clause") or "").split(":")[1:2], _features(r.get("clause"))
+        else:
+            fm, feats = (r.get("sig") or "").split(":")[1:2], _features(r.get("sig"))
+        if not fm or not feats:
+            continue
+        feats = sorted(feats)
+        for k in (1, 2):
+            for combo in itertools.combinations(feats, k):
+                key = (fm[0], combo)
+                tot[key] = tot.get(key, 0) + 1
+                if not r["ok"]:
+                    bad[key] = bad.get(key, 0) + 1
+    prio = {"paths": 0, "tgt": 1, "opf": 2, "enc": 3}
+    for r in results:
+        sig = r.get("sig") or ""
+        feats = _features(sig)
+        if r["ok"] or not feats:
+            continue
+        fm = sig.split(":")[1]
+        best = None
+        for k in (1, 2):
+            cands = [c for c in itertools.combinations(sorted(feats), k) if bad.get((fm, c), 0) == tot.get((fm, c), -1)]
+            if cands:
+                cands.sort(key=lambda c: [prio.get(x.split("=")[0], 9) for x in c])
+                best = "+".join(cands[0])
+                break
+        r["sig"] = vlib.re.sub(r"\{[^}]*\}", best or "mixed", sig)
+    return results
+
+
 def _validate_segments(ctx, events, max_report=4):
     segs = []
     for e in events:
@@ -115,6 +170,7 @@ def _validate_segments(ctx, events, max_report=4):
         hint = head.get("hint") or "%s:trace-%s" % (head.get("fmt"), ev["event"].lower())
         if ":order:" in hint:   # larger packages: name the symptom only
             hint = hint.split(":order:")[0] + ":order:trace"
+        hint = vlib.re.sub(r"\{[^}]*\}", "trace", hint)
         sig = "C18:" + hint
         ctx.violation(sig, "PartsOrderTrace rejects the recorded execution at event %s: the real code does not present the declared "
                            "parts of this %s package in declared order" % (vlib.json.dumps(ev), head.get("fmt")),
@@ -131,15 +187,15 @@ def _validate_segments(ctx, events, max_report=4):
 def run(ctx):
     q = ctx.tier == "quick"
     # ---- R1 -------------------------------------------------------------------
-    ctx.tlc("PartsOrderMC", "PartsOrder_mc_quick.cfg" if q else "PartsOrder_mc_thorough.cfg", timeout=3000)
+    # the exhaustive run checks the invariants AND emits one case per package (terminal states)
+    gen = ctx.tlc("PartsOrderMC", "PartsOrder_mc_quick.cfg" if q else "PartsOrder_mc_thorough.cfg", collect=True, timeout=3000)
     ctx.tlc("PartsOrderMC", "PartsOrder_mc_impl_filename.cfg", expect_violation=True)
     ctx.tlc("PartsOrderMC", "PartsOrder_mc_impl_zip.cfg", expect_violation=True)
     ctx.tlc("PartsOrderMC", "PartsOrder_mc_impl_query.cfg", expect_violation=True)
     ctx.tlc("PartsOrderMC", "PartsOrder_mc_impl_convention.cfg", expect_violation=True)
+    ctx.tlc("PartsOrderMC", "PartsOrder_mc_impl_twice.cfg", expect_violation=True)
     ctx.exhaustive = True
     # ---- R2 -------------------------------------------------------------------
-    gen = ctx.tlc("PartsOrderMC", "PartsOrder_gen_quick.cfg" if q else "PartsOrder_gen_thorough.cfg", workers=1 if q else 8,
-                  collect=True, count=False, timeout=3000)
     sim = ctx.tlc("PartsOrderMC", "PartsOrder_sim.cfg", workers=1, simulate=400 if q else 20000, depth=6,
                   collect=True, count=False, timeout=3000)
     seen, cases = set(), []
@@ -159,7 +215,7 @@ def run(ctx):
     for c in (cases[ng // 3], cases[-1]):
         ctx.sample({"fmt": c["fmt"], "profile": c["prof"], "parts": [{"id": p["id"], "decl": p["decl"], "rel": p["rel"], "zip": p["zip"],
                     "n": p["name"]["n"]} for p in c["parts"]], "expected_pages": c["pages"]})
-    absorb(ctx, _name_orders(ctx.run_driver(["c18", "replay"], cases)), label="pkg")
+    absorb(ctx, _name_features(_name_orders(ctx.run_driver(["c18", "replay"], cases))), label="pkg")
     # ---- R3 -------------------------------------------------------------------
     nreq, per = (8, 8) if q else (40, 25)
     reqs = [{"n": per, "k": 10, "salt": i} for i in range(nreq)]
